@@ -23,10 +23,11 @@ namespace
         std::vector<Ev> events;
         std::vector<ObsEv> obs;
         std::vector<std::string> fired;                // fault messages in firing order
+        std::vector<int> fired_class;                  // per fired fault: 0 ordinary, 1 stop fault of a dynamic child while the run was evaluating, 2 stop fault of a dynamic child at shutdown
         bool after_run{false};
         bool shutdown{false};            // the root graph's stop sweep has begun
         bool midrun_stop_fault{false};   // a stop fault fired while the run was still evaluating (a dynamic child being retired)
-        std::vector<std::string> script, kscript;
+        std::vector<std::string> script, kscript, lscript;
         int cycles{0};
     };
     Ledger *L = nullptr;
@@ -39,6 +40,7 @@ namespace
             {
                 const std::string msg = "injected fault id=" + std::to_string(id) + " phase=" + (phase == START ? "start" : phase == EVAL ? "evaluate" : "stop") + " #" + std::to_string(n);
                 L->fired.push_back(msg);
+                L->fired_class.push_back(phase == STOP && (id == 50 || id == 21 || id == 22) ? (L->shutdown ? 2 : 1) : 0);
                 if (phase == STOP && !L->shutdown) L->midrun_stop_fault = true;
                 throw std::runtime_error(msg);
             }
@@ -93,6 +95,33 @@ namespace
             if (c + 1 < L->cycles) sched.schedule(MIN_TD);
         }
     };
+    struct ListWriter   // fixed two-element list: "i=v" ops
+    {
+        static constexpr auto name = "c14_list_writer";
+        static constexpr bool schedule_on_start = true;
+        static void eval(NodeScheduler sched, DateTime now, Out<PairL> out)
+        {
+            const long c = rel(now);
+            if (c < static_cast<long>(L->lscript.size())) { const std::string &ops = L->lscript[static_cast<std::size_t>(c)]; if (!ops.empty()) for (auto &op : split(ops, ',')) ShapeTSL::apply(out, op, now); }
+            if (c + 1 < static_cast<long>(L->lscript.size())) sched.schedule(MIN_TD);
+        }
+    };
+    using DynL = TSL<TS<Int>>;
+    struct DynListWriter   // grow-only dynamic list: "i=v" ops
+    {
+        static constexpr auto name = "c14_dyn_list_writer";
+        static constexpr bool schedule_on_start = true;
+        static void eval(NodeScheduler sched, DateTime now, Out<DynL> out)
+        {
+            const long c = rel(now);
+            if (c < static_cast<long>(L->lscript.size()))
+            {
+                const std::string &ops = L->lscript[static_cast<std::size_t>(c)];
+                if (!ops.empty()) for (auto &op : split(ops, ',')) { auto eq = op.find('='); out.set(static_cast<std::size_t>(std::stol(op.substr(0, eq))), Int{std::stol(op.substr(eq + 1))}); }
+            }
+            if (c + 1 < static_cast<long>(L->lscript.size())) sched.schedule(MIN_TD);
+        }
+    };
     struct KeyWriter
     {
         static constexpr auto name = "c14_key_writer";
@@ -118,6 +147,18 @@ namespace
     struct Sub { static constexpr auto name = "c14_sub"; static Port<TS<Int>> compose(Wiring &w, Port<TS<Int>> in) { return wire<FNode>(w, wire<FNode>(w, in, Int{11}), Int{12}); } };
     struct MapF { static constexpr auto name = "c14_mapf"; static Port<TS<Int>> compose(Wiring &w, Port<TS<Int>> ts) { return wire<FNode>(w, wire<FNode>(w, ts, Int{21}), Int{22}); } };
     struct Br1 { static constexpr auto name = "c14_br1"; static Port<TS<Int>> compose(Wiring &w, Port<TS<Int>> ts) { return wire<FNode>(w, wire<FNode>(w, ts, Int{31}), Int{32}); } };
+    struct Sub2 { static constexpr auto name = "c14_sub2"; static Port<TS<Int>> compose(Wiring &w, Port<TS<Int>> in) { return wire<FNode>(w, nested_<Sub>(w, in), Int{13}); } };
+    struct BrMap
+    {
+        static constexpr auto name = "c14_br_map";
+        static Port<TS<Int>> compose(Wiring &w, Port<TS<Int>> ts, Port<DictI> d)
+        {
+            (void)ts;
+            auto m = wire<stdlib::map_>(w, fn<MapF>(), d).template as<DictI>();
+            return wire<stdlib::reduce_>(w, fn<stdlib::add_>(), m, Int{0}).template as<TS<Int>>();
+        }
+    };
+    struct BrPlain { static constexpr auto name = "c14_br_plain"; static Port<TS<Int>> compose(Wiring &w, Port<TS<Int>> ts, Port<DictI> d) { (void)d; return wire<FNode>(w, ts, Int{33}); } };
     struct Br2 { static constexpr auto name = "c14_br2"; static Port<TS<Int>> compose(Wiring &w, Port<TS<Int>> ts) { return wire<FNode>(w, ts, Int{33}); } };
 
     struct Obs : LifecycleObserver
@@ -139,6 +180,12 @@ namespace
             case 'r': return {50, 4};
             case 't': return {1, 41, 42, 4};   // try_except_ around a value sub-graph
             case 'k': return {1, 41, 43, 4};   // try_except_ around a SINK sub-graph
+            case 'M': return {21, 22, 4};      // mesh_ (no cross-instance access) over the churning dictionary
+            case 'l': return {21, 22, 4};      // map_ over a fixed list
+            case 'd': return {21, 22, 4};      // map_ over a grow-only dynamic list
+            case 'o': return {50, 4};          // ordered (non-associative) reduce over a contiguous TSD[int, TS]
+            case 'w': return {1, 21, 22, 33, 4};   // switch_ whose first branch holds a map_ (dynamic children inside a dynamic child)
+            case 'N': return {1, 11, 12, 13, 4};   // nested_ inside nested_
         }
         return {};
     }
@@ -161,6 +208,9 @@ namespace
             }
         led.script = {"s1=5,s2=6", "s3=7", "e1", "s2=8"};
         led.kscript = {"v1", "", "v2", ""};
+        led.lscript = {"0=5", "1=6", "0=7,1=8", ""};
+        if (program == 'o') led.script = {"s0=5,s1=6", "s2=7", "e2", "s1=8"};   // ordered reduce needs contiguous keys from 0
+        if (program == 'w') led.kscript = {"v1", "", "v2", "v1"};               // back to the map-holding branch: a second generation of children
         led.cycles = 4;
         L = &led;
         Obs obs;
@@ -193,6 +243,30 @@ namespace
                     else wire<ErrSink>(w, try_except_<TrySubK>(w, src).template as<TS<NodeError>>());
                     last = wire<FNode>(w, src, Int{4});
                 }
+                else if (program == 'M')
+                {
+                    auto m = wire<stdlib::mesh_>(w, fn<MapF>(), wire<DictWriter>(w)).template as<DictI>();
+                    last = wire<FNode>(w, wire<stdlib::reduce_>(w, fn<stdlib::add_>(), m, Int{0}).template as<TS<Int>>(), Int{4});
+                }
+                else if (program == 'l')
+                {
+                    auto m = wire<stdlib::map_>(w, fn<MapF>(), wire<ListWriter>(w)).template as<PairL>();
+                    last = wire<FNode>(w, wire<stdlib::reduce_>(w, fn<stdlib::add_>(), m, Int{0}).template as<TS<Int>>(), Int{4});
+                }
+                else if (program == 'd')
+                {
+                    auto m = wire<stdlib::map_>(w, fn<MapF>(), wire<DynListWriter>(w)).template as<DynL>();
+                    last = wire<FNode>(w, wire<stdlib::reduce_>(w, fn<stdlib::add_>(), m, Int{0}).template as<TS<Int>>(), Int{4});
+                }
+                else if (program == 'o') last = wire<FNode>(w, wire<stdlib::reduce_>(w, fn<FSum>(), wire<DictWriter>(w), wire<stdlib::const_, TS<Int>>(w, Int{0}), Bool{false}).template as<TS<Int>>(), Int{4});
+                else if (program == 'w')
+                {
+                    stdlib::SwitchCases cases;
+                    cases.cases.push_back({Value{Int{1}}, fn<BrMap>()});
+                    cases.cases.push_back({Value{Int{2}}, fn<BrPlain>()});
+                    last = wire<FNode>(w, wire<stdlib::switch_>(w, wire<KeyWriter>(w), cases, wire<FSrc>(w, Int{1}), wire<DictWriter>(w)).template as<TS<Int>>(), Int{4});
+                }
+                else if (program == 'N') last = wire<FNode>(w, nested_<Sub2>(w, wire<FSrc>(w, Int{1})), Int{4});
                 else if (program == 'r') last = wire<FNode>(w, wire<stdlib::reduce_>(w, fn<FSum>(), wire<DictWriter>(w)).template as<TS<Int>>(), Int{4});
                 else throw verif::HarnessError("bad program");
                 (void)last;
@@ -292,8 +366,26 @@ namespace
                 else if (exc.find("node[") == std::string::npos) out.violation = "the error reaching the caller does not name the failing node: " + exc;
             }
         }
-        if (out.violation && out.sig_class.empty() && program == 'r' && led.midrun_stop_fault)
-            out.sig_class = "reduce: an exception thrown by a combiner's stop while the reduction tree is restructured mid-run is swallowed";
+        // Known swallow classes (DESIGN 7.3): reduce_ / ordered reduce swallow a combiner's stop failure while the tree is restructured
+        // mid-run; mesh_ swallows an instance's stop failure at any time (slot-store callback). The class applies ONLY when the
+        // violation is exactly "that fault's message did not reach the caller": with those faults taken out of the fired list the
+        // error-reporting rule must hold, and the violation must be one of the two error-reporting forms.
+        if (out.violation && out.sig_class.empty() && (program == 'r' || program == 'o' || program == 'M') &&
+            (out.violation->rfind("faults fired", 0) == 0 || out.violation->rfind("the error reaching the caller does not carry the FIRST", 0) == 0))
+        {
+            std::vector<std::string> rest; bool any = false;
+            for (std::size_t i = 0; i < led.fired.size(); ++i)
+            {
+                const int c = led.fired_class[i];
+                const bool swallowed = program == 'M' ? c != 0 : c == 1;
+                if (swallowed) any = true; else rest.push_back(led.fired[i]);
+            }
+            const bool rest_ok = rest.empty() ? !threw : (threw && exc.find(rest[0]) != std::string::npos && exc.find("node[") != std::string::npos);
+            if (any && rest_ok)
+                out.sig_class = program == 'r' ? "reduce: an exception thrown by a combiner's stop while the reduction tree is restructured mid-run is swallowed"
+                              : program == 'o' ? "ordered reduce: an exception thrown by a combiner's stop while a generation is retired mid-run is swallowed"
+                                               : "mesh_: an exception thrown by the stop of a node inside an instance graph is swallowed";
+        }
         std::ostringstream sig;
         for (auto &e : led.events) if (e.kind != 'E') sig << e.kind << e.id << ",";
         out.sig = desc.substr(0, 2) + "#" + sig.str();
@@ -309,7 +401,7 @@ std::optional<std::string> verif_run_case(verif::Ctx &, const std::string &desc)
 void verif_enumerate(verif::Ctx &ctx)
 {
     const bool th = ctx.thorough();
-    for (char program : std::string{"fnmsrtk"})
+    for (char program : std::string{"fnmsrtkMldowN"})
     {
         std::vector<std::string> singles;
         for (long id : program_ids(program))
@@ -317,7 +409,7 @@ void verif_enumerate(verif::Ctx &ctx)
             {
                 // an evaluate fault inside a try_except_ child is captured, not propagated: C15's subject, not injected here
                 if ((program == 't' || program == 'k') && phase == EVAL && id >= 40) continue;
-                for (int occ = 1; occ <= (th ? 5 : 3); ++occ) singles.push_back(std::to_string(id) + "." + std::to_string(phase) + "." + std::to_string(occ));
+                for (int occ = 1; occ <= (phase == STOP && (program == 'o' || program == 'r') ? 8 : th ? 5 : 3); ++occ) singles.push_back(std::to_string(id) + "." + std::to_string(phase) + "." + std::to_string(occ));
             }
         std::vector<std::string> cases = {""};
         for (auto &s : singles) cases.push_back(s);
